@@ -5,6 +5,8 @@ def unsafe_decode(string):
   return gfapy.ByteArray(string)
 
 def decode(string):
+  # (the hex decoder also accepts lower case letters, which GFA does not)
+  validate_encoded(string)
   return gfapy.ByteArray(string)
 
 def validate_encoded(string):
